@@ -348,7 +348,58 @@ func fprintfIntrinsic(ex *Exec, st *State, fv FuncV, args []Value, res ssa.Value
 	w := args[0].(IfaceV)
 	format := args[1].(StrV)
 	if va, ok := args[2].(SliceV); ok && va.obj != 0 && !(va.len.isConst && va.len.v == 0) {
-		fail("fmt.Fprintf with operands")
+		// literal format made of text and %s verbs with string / []byte operands
+		f, okf := format.concrete()
+		if !okf || !va.len.isConst || !va.off.isConst {
+			fail("fmt.Fprintf with operands and a non-literal format")
+		}
+		ops := st.container(va).(ArrV).e[va.off.v : va.off.v+va.len.v]
+		out := StrV{}
+		oi := 0
+		for i := 0; i < len(f); i++ {
+			if f[i] != '%' {
+				out = out.concat(litStr(f[i : i+1]))
+				continue
+			}
+			if i+1 < len(f) && f[i+1] == '%' {
+				out = out.concat(litStr("%"))
+				i++
+				continue
+			}
+			if i+1 >= len(f) || f[i+1] != 's' || oi >= len(ops) {
+				fail("fmt.Fprintf format %q is not modelled", f)
+			}
+			op := ops[oi].(IfaceV)
+			oi++
+			i++
+			switch x := op.v.(type) {
+			case StrV:
+				out = out.concat(x)
+			case SliceV:
+				out = out.concat(ex.bytesToString(st, x))
+			default:
+				fail("fmt.Fprintf %%s operand of type %v is not modelled", op.t)
+			}
+		}
+		if oi != len(ops) {
+			fail("fmt.Fprintf with extra operands")
+		}
+		// the rendered text is written verbatim ('%' inside operands is not interpreted)
+		if w.t == nil {
+			ex.check(st, tTrue, "panic", "nil interface method call", at)
+			ex.endPath(st, "panic")
+			return false
+		}
+		m := ex.prog.LookupMethod(w.t, nil, "Write")
+		if m == nil {
+			fail("fmt.Fprintf: no Write method on %s", w.t)
+		}
+		b := ex.stringToBytes(st, out)
+		if !ex.enter(st, FuncV{fn: m}, []Value{w.v, b}, nil, at) {
+			return false
+		}
+		st.top().onReturn = func(st *State, r Value) { setRes(st, res, r) }
+		return true
 	}
 	if w.t == nil {
 		ex.check(st, tTrue, "panic", "nil interface method call", at)
